@@ -416,6 +416,41 @@ def angle_interpolation(P, rep, rule="EXPR.angle"):
         rep.ok(rule, "interpolate_angle_across_zero: %d regions of a2-a1 in (-2*pi, 2*pi) agree with the shorter-arc interpolation" % len(done), F.loc, F.qn)
 
 
+def _only_at_centre(P, F, ret, sym, syms):
+    """the return statement is reached only when both rotated offsets are zero (the point is the centre): some condition that
+    controls it is a conjunction containing `X == 0` for two expressions X that vanish exactly when p = c (linear, independent in p)"""
+    from .guard import expand_cond
+    px, py, cx, cy = syms
+    zero_forms = []
+    for a in F.ancestors(ret):
+        if a.get("k") != "IfStmt" or not any(y is ret for y in F.walk(a["c"][1])):
+            continue
+        c = expand_cond(P, F, a["c"][0])
+
+        def conj(e):
+            e = sc(e)
+            if e.get("k") == "BinaryOperator" and e.get("op") == "&&":
+                return conj(e["c"][0]) + conj(e["c"][1])
+            return [e]
+        for e in conj(c):
+            if e.get("k") == "BinaryOperator" and e.get("op") == "==":
+                l, r = sc(e["c"][0]), sc(e["c"][1])
+                if r.get("k") in ("IntegerLiteral", "FloatingLiteral") and float(r.get("v")) == 0.0:
+                    try:
+                        zero_forms.append(sp.expand(sym(l)))
+                    except Exception:
+                        pass
+    if len(zero_forms) < 2:
+        return False
+    # both vanish at the centre, and together they force p = c: the 2x2 Jacobian in (px, py) is regular
+    try:
+        at_c = [sp.simplify(z.subs({px: cx, py: cy})) for z in zero_forms[:2]]
+        J = sp.Matrix([[sp.diff(z, px), sp.diff(z, py)] for z in zero_forms[:2]])
+        return all(v == 0 for v in at_c) and sp.simplify(J.det()) != 0
+    except Exception:
+        return False
+
+
 def ellipse_fraction(P, rep, rule="EXPR.ellipse"):
     rep.rule(rule, "fraction_from_ellipse_center(c, a, e, theta, p) = x'^2/a^2 + y'^2/(a^2 (1-e^2)) with (x', y') the offset p-c rotated by -theta")
     F = P.func("WorldBuilder::Utilities::fraction_from_ellipse_center")
@@ -469,6 +504,8 @@ def ellipse_fraction(P, rep, rule="EXPR.ellipse"):
                 rep.ok(rule, "degenerate ellipse (%s): the value depends on the point (%s)" % (where, txt[:50]), F.nloc(r), F.qn)
         elif num > 1.0:
             rep.ok(rule, "degenerate ellipse (%s): the point is reported outside (%s)" % (where, txt[:30]), F.nloc(r), F.qn)
+        elif _only_at_centre(P, F, r, sym, (px, py, cx, cy)):
+            rep.ok(rule, "degenerate ellipse: %s is returned for the centre itself only" % txt[:20], F.nloc(r), F.qn)
         else:
             rep.violation(rule, "fraction_from_ellipse_center returns %s (= %g) when %s" % (txt[:30], num, where), F.nloc(r), F.qn, norm.render(P, r)[:120],
                           "an ellipse with an axis of length zero contains every point: the callers test `fraction <= 1`", key=rule + "|degenerate",
@@ -728,6 +765,17 @@ def ridge_alias_twins(P, rep, rule="ALIAS.twins"):
             good = norm.render(P, c, nocast=True).replace(" ", "") == "(check_point[0]<0)" and eq(sym(a), TWO_PI) and eq(sym(b), -TWO_PI)
         g = astq.enclosing(F, sh[0], ("IfStmt",))
         good = good and g is not None and "spherical" in norm.render(P, g["c"][0])
+    elif len(sh) == 2:
+        # the same choice written as if / else: `if (check_point[0] < 0) other += 2pi; else other += -2pi;` under the spherical test
+        g0 = astq.enclosing(F, sh[0], ("IfStmt",))
+        sym = norm.Sym(P, F, inline_locals=False, hook=pi_hook(P))
+        if g0 is not None and len(g0["c"]) > 2 and g0["c"][2] is not None and any(y is sh[0] for y in F.walk(g0["c"][1])) and any(y is sh[1] for y in F.walk(g0["c"][2])):
+            try:
+                good = norm.render(P, g0["c"][0], nocast=True).replace(" ", "") == "(check_point[0]<0)" and eq(sym(sh[0]["c"][1]), TWO_PI) and eq(sym(sh[1]["c"][1]), -TWO_PI)
+            except Exception:
+                good = False
+            outer = astq.enclosing(F, g0, ("IfStmt",))
+            good = good and outer is not None and "spherical" in norm.render(P, outer["c"][0])
     if good:
         rep.ok(rule, "other_check_point[0] = check_point[0] + (check_point[0] < 0 ? 2pi : -2pi) in spherical worlds", F.nloc(sh[0]), F.qn)
     else:
@@ -1052,6 +1100,42 @@ def side_of_line_twins(P, rep, rule="EXPR.side-of-line"):
                     and float(sc(ini["c"][1])["v"]) == 0.0:
                 tests.append((ini["op"], ini["c"][0], side))
         if len(tests) != 2:
+            # both sides computed by one helper `side(a, b, p)` with a single return `E < 0`: judge E in the helper, and the two calls
+            # must agree on the line and differ in the tested point only
+            inits = [sc(decls[side["r"]]["c"][0]) for side in (l, r)]
+            if all(i_.get("k") == "CallExpr" and i_.get("callee") in P.funcs for i_ in inits) and inits[0]["callee"] == inits[1]["callee"]:
+                G = P.funcs[inits[0]["callee"]]
+                rets = [x for x in G.walk() if x.get("k") == "ReturnStmt" and x.get("c")] if G.body is not None else []
+                a0, a1 = [norm.render(P, z, nocast=True) for z in inits[0]["c"][1:]], [norm.render(P, z, nocast=True) for z in inits[1]["c"][1:]]
+                diff = [i_ for i_ in range(min(len(a0), len(a1))) if a0[i_] != a1[i_]]
+                ret0 = sc(rets[0]["c"][0]) if len(rets) == 1 else None
+                if ret0 is not None and ret0.get("k") == "BinaryOperator" and ret0.get("op") in ("<", ">", "<=", ">=") and len(a0) == 3 and len(diff) == 1:
+                    n += 1
+                    pn = {}
+
+                    def hook_g(nn):
+                        s_ = astq.subscript(nn)
+                        if s_ and sc(s_[0]).get("k") == "DeclRefExpr" and sc(s_[0]).get("r") in G.params and sc(s_[1]).get("k") == "IntegerLiteral":
+                            i_ = G.params.index(sc(s_[0])["r"])
+                            q = sp.Symbol("arg%d_%d" % (i_, sc(s_[1])["v"]), real=True)
+                            pn.setdefault(i_, {})[sc(s_[1])["v"]] = q
+                            return q
+                        return None
+                    try:
+                        Eg = sp.expand(norm.Sym(P, G, inline_locals=True, hook=hook_g)(ret0["c"][0]))
+                        pi_ = diff[0]
+                        others = [i_ for i_ in (0, 1, 2) if i_ != pi_]
+                        vanish = all(sp.expand(Eg.xreplace({pn[pi_][k_]: pn[o_][k_] for k_ in (0, 1)})) == 0 for o_ in others)
+                        affine = sp.Poly(Eg, pn[pi_][0], pn[pi_][1]).total_degree() == 1
+                    except Exception as e:
+                        rep.unknown(rule, "side helper %s not evaluated (%s)" % (G.qn, e))
+                        continue
+                    if vanish and affine:
+                        rep.ok(rule, "`%s == %s`: both are %s(a, b, p) = (b - a) x (p - a) %s 0 over one line" % (l.get("n"), r.get("n"), G.name, ret0["op"]), F.nloc(c), F.qn)
+                    else:
+                        rep.violation(rule, "`%s == %s`: %s is not the sign of (b - a) x (p - a)" % (l.get("n"), r.get("n"), G.name), G.loc, G.qn, norm.render(P, ret0)[:160],
+                                      "for a transform fault that is not axis-parallel the query is assigned to the wrong ridge segment", key=rule + "|form",
+                                      witness="the same oceanic plate rotated by 30 degrees: ages beside the transform fault change")
             continue
         n += 1
         names = {}
